@@ -175,3 +175,31 @@ Proof.
   intros Hfg <- Hf eps Heps. destruct (Hf eps Heps) as [delta Hdelta].
   exists delta. intros h Hh0 Hh. rewrite <- !Hfg. apply Hdelta; assumption.
 Qed.
+
+(** * a sharper lower bound: 2/3 <= ln 2, from exp (1/24) <= 24/23 and four squarings *)
+
+Lemma exp_double_le (x b : R) : exp x <= b -> exp (2 * x) <= b * b.
+Proof.
+  intros H. replace (2 * x) with (x + x) by ring. rewrite exp_plus.
+  pose proof (exp_pos x) as Hp. apply Rmult_le_compat; lra.
+Qed.
+
+Lemma exp_24th : exp (1 / 24) <= 24 / 23.
+Proof.
+  pose proof (exp_ineq1_le (- (1 / 24))) as H. rewrite exp_Ropp in H.
+  pose proof (exp_pos (1 / 24)) as Hp.
+  apply (Rmult_le_compat_r (exp (1 / 24))) in H; [|lra].
+  rewrite Rinv_l in H by lra. lra.
+Qed.
+
+Lemma exp_two_thirds : exp (2 / 3) <= 2.
+Proof.
+  pose proof (exp_double_le _ _ (exp_double_le _ _ (exp_double_le _ _ (exp_double_le _ _ exp_24th)))) as H.
+  replace (2 * (2 * (2 * (2 * (1 / 24))))) with (2 / 3) in H by field.
+  eapply Rle_trans; [exact H|]. lra.
+Qed.
+
+Lemma ln2_ge_two_thirds : 2 / 3 <= ln 2.
+Proof.
+  rewrite <- (ln_exp (2 / 3)). apply ln_le_mono; [apply exp_pos | apply exp_two_thirds].
+Qed.
